@@ -1,4 +1,5 @@
-"""C29 (bounded stand-in): merge_generators / debounced_sorted_prefix / Debouncer are async generators over tasks and
+"""C29 (bounded part; the ordering contract of debounced_sorted_prefix itself is an SMT obligation, specs/iter_utils.py):
+merge_generators / debounced_sorted_prefix / Debouncer are async generators over tasks and
 `asyncio.wait` - outside the subset pyvc can execute symbolically (no generator protocol, no task model), so the
 property's own statement is evaluated as a run-time checked contract on the REAL functions over an exhaustively
 enumerated family of arrival timings.  Time is virtual: the event loop's clock jumps to the next timer, so arrivals
@@ -119,15 +120,21 @@ def check_dsp(iu, delays, keys, MAXW=2.5):
         return f"raised {type(e).__name__}: {e}"
     if sorted(out) != sorted(items):
         return f"items lost or duplicated: yielded {out}"
+    # the burst is sorted BY KEY: the order among items with equal keys is not part of the statement
+    def shape_ok(k):
+        burst, rest = out[:k], out[k:]
+        return (sorted(burst) == sorted(items[:k]) and all(a[0] <= b[0] for a, b in zip(burst, burst[1:]))
+                and rest == items[k:])
+
     shapes = [sorted(items[:k], key=lambda v: v[0]) + items[k:] for k in range(len(items) + 1)]
-    ks = [k for k, s in enumerate(shapes) if s == out]
+    ks = [k for k in range(len(items) + 1) if shape_ok(k)]
     if not ks:
         return f"not (sorted burst, then arrival order): yielded {out}"
     must, may = window_close(arrivals, MAXW)
-    if not any(must <= k for k in ks) and not any(shapes[k] == shapes[must] for k in ks):
+    if not any(must <= k for k in ks) and not shape_ok(must):
         return f"an item that arrived inside the window was passed through unsorted: yielded {out}, burst must hold {must}"
     hi = max(may, must)
-    if all(k > hi for k in ks) and not any(shapes[k] == shapes[hi] for k in ks):
+    if all(k > hi for k in ks) and not shape_ok(hi):
         return (f"an item that arrived after the window closed was sorted into the burst: yielded {out}, "
                 f"burst may hold at most {hi} (arrivals {arrivals})")
     return None
@@ -267,7 +274,7 @@ def run(tier, seed, repo):
             "why no contract proof: async generators over tasks and asyncio.wait have no encoding in pyvc (no generator "
             "protocol, no task model); the functions are checked as they are, loaded from the file on every run",
         ],
-        "coverage_extra": {"bounded_not_proved": ["all C29 obligations: enumeration bound (see assumptions)"]},
+        "coverage_extra": {"bounded_not_proved": ["the two bounded obligations of C29 (merge_generators, and the timing side of debounced_sorted_prefix): enumeration bound (see assumptions)"]},
     }
 
 
